@@ -47,6 +47,11 @@ def load_manifest_levels():
 def do_replay(check, path):
     mod = importlib.import_module(SPEC_OF[check])
     core.quiet_library_logging()
+    try:   # the address-space limit every run executes under
+        import resource
+        resource.setrlimit(resource.RLIMIT_AS, (3 * 1024 ** 3,) * 2)
+    except (ValueError, OSError):
+        pass
     body = json.load(open(path))
     trace = body['trace']
     hs = body.get('hashseed')
